@@ -83,6 +83,12 @@ def models():
             return err(IoError('lstat failed'))
         return ok(e.meta)
 
+    @reg(r'^(std::fs::)?metadata$|^(std::path::)?Path(Buf)?::metadata$', 'fs:stat (follows links): the attributes of the link TARGET, a different record')
+    def stat_follow(ctx, args, callee):
+        if 'target_meta' not in ctx.ghost:
+            ctx.ghost['target_meta'] = MetaV(ctx)
+        return ok(ctx.ghost['target_meta'])
+
     @reg(r'^(std::fs::)?DirEntry::path$', 'fs:DirEntry::path')
     def entry_path(ctx, args, callee):
         n = ctx.deref(args[0]).name
@@ -203,7 +209,7 @@ def fam_wiring(sess):
     gfv = prog.find('Searcher', 'get_field_value')
     fms_new = prog.find('FileMetadataState', 'new')
     cols = list(TYPE_COLS) + list(PERM_COLS) + list(INT_COLS) + list(TOKEN_COLS)
-    sess.bounds[fam] = {'columns': cols, 'lstat record': 'symbolic (all modes of the seven file types, 62-bit sizes / counters)', 'zip members': 'stored mode symbolic (type and permission columns)'}
+    sess.bounds[fam] = {'columns': cols, 'lstat record': 'symbolic (all modes of the seven file types, 62-bit sizes / counters)', 'symlinks root option': 'symbolic (the entry\'s own attributes either way)', 'zip members': 'stored mode symbolic (type and permission columns)'}
     for col in cols:
         for archived in ((False, True) if (col in TYPE_COLS and col not in ('IsDir', 'IsFile', 'IsSymlink')) or col in PERM_COLS or col == 'Mode' else (False,)):
             box = {}
@@ -212,7 +218,7 @@ def fam_wiring(sess):
                 meta = MetaV(ctx)
                 entry = EntryM(meta)
                 ctx.ghost['entry'] = entry
-                s = E.mk_searcher(prog, fms=ctx.call_fn(fms_new, []), current_follow_symlinks=BoolVal(False))
+                s = E.mk_searcher(prog, fms=ctx.call_fn(fms_new, []), current_follow_symlinks=ctx.fresh_bool('root_follows_symlinks'))
                 if archived:
                     amode = ctx.fresh_bv('zip_mode', 32)
                     fi = some(E.mk_struct(prog, 'FileInfo', {'name': Str('dir/member.txt'), 'size': ctx.fresh_bv('zip_size', 64), 'mode': some(amode), 'modified': none()}))
@@ -805,7 +811,8 @@ def cli_replay_hidden_empty(col):
 
 
 CLASSES = ['archive', 'audio', 'book', 'doc', 'font', 'image', 'source', 'video']
-CLASS_NAMES = ['a.x0', 'A.X0', 'b.tar.x1', 'c.X2', 'd.x3x', 'x4', '.x5', 'e.x6.bak', 'f.X7', 'noext', 'g.y0', 'H.Y1', 'i.y2', 'j.Y3', 'k.y4', 'l.y5', 'm.Y6', 'n.y7']
+CLASS_NAMES = (['A.X0', 'b.tar.x1', 'd.x3x', 'x4', '.x5', 'e.x6.bak', 'noext', 'H.Y1', 'm.Y6']            # the awkward ones
+               + ['p%d.x%d' % (i, i) for i in range(8)] + ['q%d.y%d' % (i, i) for i in range(8)])       # one plain hit per class and list
 
 
 def fam_extclass(sess):
@@ -868,40 +875,169 @@ def fam_extclass(sess):
 
 def cli_replay_extclass(cl, i):
     def rep():
-        import os, tempfile, shutil, subprocess
+        import os, tempfile, shutil, subprocess, re
         exe = common.native_binary()
         d = tempfile.mkdtemp(prefix='verif-c04x-', dir=common.SCRATCH_ROOT)
         try:
+            src = open(os.path.join(common.REPO, 'src', 'config.rs')).read()
+            defaults = {}
+            for c2 in CLASSES:
+                m = re.search(r'is_%s: vec_of_strings!\[(.*?)\]' % c2, src, re.S)
+                defaults[c2] = re.findall(r'"([^"]*)"', m.group(1)) if m else []
             os.mkdir(os.path.join(d, 't'))
-            for n in CLASS_NAMES:
+            names = list(CLASS_NAMES) + ['z%d%s' % (j, defaults[c2][0]) for j, c2 in enumerate(CLASSES) if defaults[c2]]
+            for n in names:
                 open(os.path.join(d, 't', n), 'w').close()
             msgs = []
             for user in (False, True):
-                cfgdir = os.path.join(d, 'cfg%d' % user)
-                os.makedirs(cfgdir)
-                # a configuration file in the current directory wins (Config::get_current_dir_config)
+                # the configuration file of the user: $XDG_CONFIG_HOME/fselect/config.toml (directories::ProjectDirs)
+                xdg = os.path.join(d, 'xdg%d' % user)
+                os.makedirs(os.path.join(xdg, 'fselect'))
                 lines = []
                 for j, c2 in enumerate(CLASSES):
                     if user or c2 != cl:
                         lines.append('is_%s = [".y%d"]' % (c2, j))
-                open(os.path.join(cfgdir, 'config.toml'), 'w').write('\n'.join(lines) + '\n')
-                env = {'PATH': os.environ['PATH'], 'HOME': d, 'XDG_CONFIG_HOME': os.path.join(d, 'xdg'), 'TZ': 'UTC'}
-                r = subprocess.run([exe, 'name', 'from', os.path.join(d, 't'), 'where', 'is_' + cl, '=', 'true'], cwd=cfgdir, env=env, stdout=subprocess.PIPE, stderr=subprocess.PIPE, timeout=20)
+                open(os.path.join(xdg, 'fselect', 'config.toml'), 'w').write('\n'.join(lines) + '\n')
+                env = {'PATH': os.environ['PATH'], 'HOME': d, 'XDG_CONFIG_HOME': xdg, 'TZ': 'UTC'}
+                r = subprocess.run([exe, 'name', 'from', os.path.join(d, 't'), 'where', 'is_' + cl, '=', 'true'], cwd=d, env=env, stdout=subprocess.PIPE, stderr=subprocess.PIPE, timeout=20)
                 got = sorted(r.stdout.decode().split('\n')[:-1])
                 if user:
-                    want = sorted(n for n in CLASS_NAMES if n.lower().endswith('.y%d' % i))
+                    want = sorted(n for n in names if n.lower().endswith('.y%d' % i))
                 else:
-                    import re
-                    src = open(os.path.join(common.REPO, 'src', 'config.rs')).read()
-                    m = re.search(r'is_%s: vec_of_strings!\[(.*?)\]' % cl, src, re.S)
-                    exts = re.findall(r'"([^"]*)"', m.group(1)) if m else []
-                    want = sorted(n for n in CLASS_NAMES if any(n.lower().endswith(e) for e in exts))
+                    want = sorted(n for n in names if any(n.lower().endswith(e) for e in defaults[cl]))
                 if got != want:
                     return True, 'is_%s with the list %s by the configuration file: true for %r, expected %r' % (cl, 'set' if user else 'not set', got, want)
                 msgs.append('%r' % got)
             return False, 'is_%s verdicts agree (%s)' % (cl, '; '.join(msgs))
         finally:
             shutil.rmtree(d, ignore_errors=True)
+    return rep
+
+
+# Linux capability numbers (include/uapi/linux/capability.h), the ABI the security.capability xattr is written in
+CAP_NAMES = ['cap_chown', 'cap_dac_override', 'cap_dac_read_search', 'cap_fowner', 'cap_fsetid', 'cap_kill', 'cap_setgid', 'cap_setuid', 'cap_setpcap',
+             'cap_linux_immutable', 'cap_net_bind_service', 'cap_net_broadcast', 'cap_net_admin', 'cap_net_raw', 'cap_ipc_lock', 'cap_ipc_owner', 'cap_sys_module',
+             'cap_sys_rawio', 'cap_sys_chroot', 'cap_sys_ptrace', 'cap_sys_pacct', 'cap_sys_admin', 'cap_sys_boot', 'cap_sys_nice', 'cap_sys_resource', 'cap_sys_time',
+             'cap_sys_tty_config', 'cap_mknod', 'cap_lease', 'cap_audit_write', 'cap_audit_control', 'cap_setfcap', 'cap_mac_override', 'cap_mac_admin', 'cap_syslog',
+             'cap_wake_alarm', 'cap_block_suspend', 'cap_audit_read', 'cap_perfmon', 'cap_bpf', 'cap_checkpoint_restore']
+
+
+def cap_models():
+    out = []
+
+    def reg(pat, name):
+        def deco(f):
+            out.append((pat, f, name)); return f
+        return deco
+
+    @reg(r'^<Vec<u8> as (std::ops::)?Index<(std::ops::)?Range<usize>>>::index$|^(core|std)::slice::index::<impl (std::ops::)?Index<(std::ops::)?Range<usize>> for \[u8\]>::index$', 'byte slice caps[a..b]')
+    def slice_range(ctx, args, callee):
+        v = ctx.deref(args[0]); r = args[1]
+        lo, hi = conc(r.f[0]), conc(r.f[1])
+        ctx.obligation(BoolVal(lo <= hi <= len(v.items)), 'range end index out of range for slice')
+        return Ref(Cell(Seq([c.v for c in v.items[lo:hi]])))
+
+    @reg(r'^<&\[u8\] as TryInto<\[u8; 4\]>>::try_into$|^<\[u8; 4\] as TryFrom<&\[u8\]>>::try_from$', 'slice -> [u8; 4]')
+    def try_into4(ctx, args, callee):
+        v = ctx.deref(args[0])
+        if len(v.items) != 4:
+            return err(UNIT)
+        return ok(Agg([c.v for c in v.items]))
+
+    @reg(r'^(core::num::<impl u32>|u32)::from_le_bytes$', 'u32::from_le_bytes')
+    def from_le(ctx, args, callee):
+        b = args[0].f
+        return z3.simplify(z3.Concat(b[3], b[2], b[1], b[0]))
+
+    return out
+
+
+def fam_capabilities(sess):
+    """util::capabilities::parse_capabilities on a vfs_cap_data record with ONE capability (symbolic number 0..40) in a symbolic
+    combination of the permitted / inheritable sets and a symbolic effective flag: `cap_<name>=[e][i][p]` of exactly that number"""
+    prog = sess.prog
+    fam = 'capabilities'
+    ex = sess.executor(cap_models(), unwind=6, maxsteps=400000)
+    pc = prog.find_free('parse_capabilities')
+    sess.bounds[fam] = {'capability': 'one, number symbolic in 0..40', 'sets': 'permitted / inheritable symbolic', 'effective flag': 'symbolic byte',
+                        'record length': '20 bytes (revision 2/3) and 12 bytes (revision 1: numbers 0..31)'}
+    for nbytes in (20, 12):
+        box = {'paths': 0}
+
+        def run(ctx, nbytes=nbytes):
+            i = ctx.fresh_bv('cap_number', 32)
+            ctx.assume(ULT(i, BitVecVal(41 if nbytes == 20 else 32, 32)))
+            inp = ctx.fresh_bool('in_permitted'); ini = ctx.fresh_bool('in_inheritable')
+            eff = ctx.fresh_bv('effective_byte', 8)
+            bit_lo = If(ULT(i, BitVecVal(32, 32)), BitVecVal(1, 32) << i, BitVecVal(0, 32))
+            bit_hi = If(ULT(i, BitVecVal(32, 32)), BitVecVal(0, 32), BitVecVal(1, 32) << (i - 32))
+            words = [If(inp, bit_lo, 0), If(ini, bit_lo, 0), If(inp, bit_hi, 0), If(ini, bit_hi, 0)]
+            by = [eff, BitVecVal(0, 8), BitVecVal(0, 8), BitVecVal(2, 8)]
+            for w in words:
+                w = z3.simplify(w) if z3.is_expr(w) else BitVecVal(w, 32)
+                by += [z3.Extract(7, 0, w), z3.Extract(15, 8, w), z3.Extract(23, 16, w), z3.Extract(31, 24, w)]
+            return i, inp, ini, eff, ctx.call_fn(pc, [Seq(by[:nbytes])])
+
+        def on_path(ctx, out, nbytes=nbytes):
+            nm = '%s (%d-byte record)' % (fam, nbytes)
+            box['paths'] += 1
+            if out[0] != 'ret':
+                if not box.get('bad'):
+                    box['bad'] = True; sess.inconclusive(nm, str(out)[:300], fam)
+                return
+            i, inp, ini, eff, r = out[1]
+            if not isinstance(r, Str) or r.s is None:
+                if not box.get('bad'):
+                    box['bad'] = True; sess.inconclusive(nm, 'result is not a concrete text on this path: %r' % (r,), fam)
+                return
+            # the path condition must imply the reading of the text
+            txt = r.s
+            if txt == '':
+                cond = And(Not(inp), Not(ini))
+            else:
+                import re
+                m = re.fullmatch(r'(cap_[a-z_]+)=(e?)(ip|p|i)', txt)
+                if not m or m.group(1) not in CAP_NAMES:
+                    cond = BoolVal(False)
+                else:
+                    k = CAP_NAMES.index(m.group(1))
+                    fl = m.group(3)
+                    cond = And(i == k, inp == BoolVal('p' in fl), ini == BoolVal('i' in fl), (eff == 1) == BoolVal(m.group(2) == 'e'))
+            if ctx.check(Not(cond)) == z3.unsat or box.get('viol'):
+                return
+            box['viol'] = True
+            mm = ctx.model(Not(cond))
+            k = mm.eval(i, model_completion=True).as_long()
+            sess.violated(nm, 'capabilities/' + CAP_NAMES[k], 'capability number %d (%s) in sets p=%s i=%s is rendered as %r' % (
+                k, CAP_NAMES[k], mm.eval(inp, model_completion=True), mm.eval(ini, model_completion=True), txt), {'number': k, 'text': txt},
+                native_caps_replay(k), fam)
+        ex.explore(run, on_path)
+        if not box.get('viol') and not box.get('bad'):
+            sess.discharged('%s (%d-byte record): cap_<name of the number>=[e][i][p]' % (fam, nbytes), family=fam, queries=box['paths'])
+
+
+def native_caps_replay(k):
+    """parse_capabilities is private to the binary and setcap needs privileges: replayed as a unit test appended to a scratch copy"""
+    def rep():
+        lo = (1 << k) if k < 32 else 0
+        hi = (1 << (k - 32)) if k >= 32 else 0
+        import struct
+        rec = bytes([1, 0, 0, 2]) + struct.pack('<IIII', lo, 0, hi, 0)
+        mod = """
+#[cfg(test)]
+mod verif_c04_caps {
+    #[test]
+    fn run() {
+        let input = std::env::var("VERIF_INPUT").unwrap();
+        let rec: Vec<u8> = input.split(',').map(|b| b.trim().parse::<u8>().unwrap()).collect();
+        println!("VERIF_OUT {}", super::parse_capabilities(rec));
+    }
+}
+"""
+        rc, lines, raw = common.native_unit('c04caps', 'src/util/capabilities.rs', mod, 'util::capabilities::verif_c04_caps::run', ','.join(str(b) for b in rec))
+        got = lines[0] if lines else None
+        want = CAP_NAMES[k] + '=ep'
+        return got != want, 'parse_capabilities(record with capability %d permitted+effective) = %r, expected %r' % (k, got, want)
     return rep
 
 
@@ -918,3 +1054,4 @@ def run(sess):
     fam_digests(sess)
     fam_extclass(sess)
     fam_hidden_empty(sess)
+    fam_capabilities(sess)
